@@ -641,7 +641,9 @@ func (cw *c10World) runBatch(b c10Batch) (fs []ev.Finding) {
 	}
 	data, offs := asm.MulticallData(entries)
 	post, _ := ctx.CacheContext()
-	res := CallEVM(cw.w, post, c10A, c10D, data, nil, 3_000_000)
+	// every inner CALL forwards 63/64 of the remaining gas and a failing precompile call consumes all of it: after k failing
+	// calls 1/64^k of the limit is left, so the limit is chosen for up to three failing calls before a succeeding one
+	res := CallEVM(cw.w, post, c10A, c10D, data, nil, 400_000_000_000)
 	var bf, bs []string
 	if res.Err != nil || res.Panic != "" || len(res.Ret) != len(data) {
 		bf = append(bf, fmt.Sprintf("multicall message failed: err=%v panic=%q ret=%d bytes", res.Err, res.Panic, len(res.Ret)))
